@@ -101,7 +101,7 @@ add("C18", "exploration", [
 ])
 
 add("C08", "exploration", [
-    {"name": "c08-compile", "bin": "exec", "pkg": "./exec", "run": "^TestVerifC08(Compile|Shared)$",
+    {"name": "c08-compile", "bin": "exec", "pkg": "./exec", "run": "^TestVerifC08(Compile|Shared|Deep)$",
      "shards": {"quick": 8, "thorough": 16}, "checks": {"quick": 500, "thorough": 15000},
      "timeout": {"quick": 600, "thorough": 3000}},
     {"name": "c08-cross", "bin": "exec", "pkg": "./exec", "run": "^TestVerifC08CrossProcess$",
